@@ -796,7 +796,7 @@ func methodCallsOnField(fns []*ssa.Function, f *types.Var, name string) []ssa.In
 				return
 			}
 			callee := c.StaticCallee()
-			if callee == nil || callee.Name() != name || len(c.Args) == 0 {
+			if callee == nil || fnBase(callee) != name || len(c.Args) == 0 {
 				return
 			}
 			if fa, ok := c.Args[0].(*ssa.FieldAddr); ok && fieldVar(fa.X.Type(), fa.Field) == f {
@@ -1196,4 +1196,13 @@ func phiLeavesD(v ssa.Value, facts []Atom, d int, seen map[*ssa.Phi]bool) []phiL
 	}
 	delete(seen, phi)
 	return out
+}
+
+// fnBase: function name without the type arguments of a generic instantiation.
+func fnBase(f *ssa.Function) string {
+	n := f.Name()
+	if i := strings.IndexByte(n, '['); i > 0 {
+		n = n[:i]
+	}
+	return n
 }
